@@ -89,7 +89,7 @@ def run_case(case: dict) -> dict:
         home = d / case.get("home", ".")
         home.mkdir(parents=True, exist_ok=True)
         d = home
-        root = d / "root"
+        root = d / case.get("rootname", "root")     # ... and so is the name of the root directory itself
         p = projmodel.ensure_cls(case["p"])
         if case.get("stacked"):
             for f in p["files"]:
@@ -117,10 +117,21 @@ def run_case(case: dict) -> dict:
         spell = [("cwd=root|root=.", ["--root", ".", "--no-multiprocessing"], root),
                  ("cwd=root|no --root", ["--no-multiprocessing"], root),
                  ("cwd=sub|root=rel", ["--root", rel_from_sub, "--no-multiprocessing"], sub),
-                 ("cwd=outside|root=rel", ["--root", "root", "--no-multiprocessing"], d),
-                 ("cwd=outside|root=non-normalised", ["--root", str(d / "root" / ".." / "." / "root"), "--no-multiprocessing"], d)]
+                 ("cwd=outside|root=rel", ["--root", root.name, "--no-multiprocessing"], d),
+                 ("cwd=outside|root=non-normalised", ["--root", str(root / ".." / "." / root.name), "--no-multiprocessing"], d)]
         for i, (name, pre, cwd) in enumerate(spell):
             runs.append(one_run(name, pre, root, Path(cwd), i % 2 == 0))
+        # the same contents checked out under another directory name
+        if case.get("copyname"):
+            twin = d / "twin" / case["copyname"]
+            shutil.copytree(root, twin, symlinks=True)
+            tw = one_run(f"same contents in a directory called {case['copyname']}|root=abs",
+                         ["--root", str(twin), "--no-multiprocessing"], twin, d, True)
+            # (the SPDX document is named after the checkout directory by design: a document identifier)
+            tw["spdx"] = tw["spdx"].replace(f"DocumentName: {twin.name}\n", f"DocumentName: {root.name}\n", 1)
+            runs.append(tw)
+            runs.append(one_run(f"same contents in a directory called {case['copyname']}|cwd=root",
+                                ["--no-multiprocessing"], twin, twin, False))
         # TLC schedules executed by the replay pool, in real forked workers
         for si, sched in enumerate(case["scheds"]):
             log = []
@@ -161,6 +172,8 @@ def run(ctx: core.Ctx) -> int:
     ctx.assumptions += [
         "outputs are compared after sorting lists, expressing paths relative to the root, and dropping the SPDX "
         "DocumentNamespace / Created lines (the statement's 'up to ordering, random identifiers and timestamps')",
+        "the SPDX DocumentName is the name of the checkout directory by design; when the same contents are checked out under "
+        "another name it is treated as a document identifier and renamed before comparing",
         "PYTHONHASHSEED can only be sampled; directory-listing orders are seeded permutations of every os.scandir result",
         "the replay pool executes TLC schedules in real forked processes, one freshly unpickled callable per chunk, "
         "as multiprocessing.Pool.map does",
@@ -203,6 +216,8 @@ def run(ctx: core.Ctx) -> int:
         cases.append({"tid": i + 1, "p": p, "label": label, "seed": ctx.seed * 97 + i,
                       "stacked": [None, "tight", "spaced"][i % 3],
                       "home": [".", "subprojects", "LICENSES/x", ".", "my dir/.reuse"][i % 5],
+                      "rootname": ["root", "root", "subprojects", "LICENSES", "root", ".reuse", "COPYING", "x.license"][i % 8],
+                      "copyname": [None, "subprojects", "other", "LICENSES", ".git", "a.spdx", "REUSE.toml"][i % 7],
                       "scandir_seeds": 2 if q else 4,
                       "scheds": rnd.sample(scheds, min(len(scheds), 3 if q else 8)),
                       "real_workers": [1, 2, 16] if q else [1, 2, 3, 4, 8, 16],
@@ -224,7 +239,9 @@ def run(ctx: core.Ctx) -> int:
         evaluations=n_runs,
         distinct_nontrivial=len({e["label"] for e in events}) * 2,
         rule="trees: seeded Lint.tla states (REUSE.toml), TLC-sampled Precedence chains and Inventory projects (dep5), a "
-             "third with stacked comment terminators; settings per tree: serial, TLC-simulated LintPool schedules run by "
+             "third with stacked comment terminators; checkouts below and in directories with names that mean something "
+             "inside a project (subprojects, LICENSES, .reuse, COPYING, *.license), and a copy of the contents under another "
+             "name; settings per tree: serial, TLC-simulated LintPool schedules run by "
              "the replay pool, the real pool with 1..16 workers (recorded), permuted directory listings, five root / cwd "
              "spellings, PYTHONHASHSEED values in fresh interpreters; lint --json and spdx; distinct = trees x {lint, spdx}",
         mc_violations=mc_viol, extra={"runs": n_runs, "pool_executions_validated": sum(len(e["pools"]) for e in events)})
